@@ -622,6 +622,29 @@ def run(ctx):
         c11.exact_rule(ctx, r)
     with ctx.rule("C01.GATE", "literal prefilter gating and candidate/confirmed labelling (shared with C11.GATE)", floor=4, kind="GUARD/ARMS") as r:
         c11.gate_rule(ctx, r)
+    with ctx.rule("C01.CASEGATE", "the hand-built literal route is never taken where case folding may be due", floor=2, kind="GUARD") as r:
+        # is_fixed_strings == true skips the parser/translator, the only place where -i / smart case fold the pattern.
+        # It may therefore answer true only with case_insensitive off, and with case_smart off unless the decision is
+        # the translator's own (Config::is_case_insensitive), never a private re-implementation of "has uppercase".
+        facts = ctx.facts
+        f = facts.fn(RCFG + "::is_fixed_strings")
+        eb = ExprBuilder(f)
+        trues = [bb for bb, j, st in f.stmts() if st["k"] == "assign" and st["place"]["l"] == 0 and not st["place"]["p"] and
+                 (op_const(st["rv"].get("a", {})) or {}).get("val") == 1]
+        if not trues:
+            r.bad("casegate|shape", "anchor-missing: is_fixed_strings has no `true` answer", fn=f)
+        for fld in ("case_insensitive", "case_smart"):
+            sw = cond_switches(f, lambda e: W.field_of(e, RCFG, fld), eb)
+            leak = guarded(f, trues, sw, False) if sw else trues
+            own = [c for c in f.calls_to(RCFG + "::is_case_insensitive")]
+            if fld == "case_smart" and leak and own:
+                leak = [t for t in leak if not any(C.dominates(f, c.bb, t) for c in own)]
+            if trues and not leak:
+                r.ok("casegate|" + fld, "true only with %s off%s" % (fld, " (or behind is_case_insensitive())" if own else ""), fn=f)
+            elif trues:
+                r.bad("casegate|" + fld, "is_fixed_strings can answer true with %s set: the literal route skips the translator, the "
+                      "only place that folds case, so lines differing in case from the pattern are dropped" % fld, fn=f,
+                      construct="is_fixed_strings")
     with ctx.rule("C01.STRIPHIR", "terminator stripped from the pattern whenever configured; effective terminator stored", floor=8,
                   kind="PASS/GUARD") as r:
         striphir_rule(ctx, r)
